@@ -8,6 +8,7 @@ only replayed that object's mutators (dst/oracle_fork.py).
 """
 import copy
 
+from .. import envmode
 from ..kernel import Violation, cjson
 from ..gen import gen_seq, AA, gen_special, gen_two_digit_counts, concat_collision, same_classes_other_letters
 from ..clock import SimClock
@@ -56,7 +57,7 @@ def gen_group(rnd, invalid=False):
         return rnd.choice((["X"], ["E", "B"], [1], ["EE"], "EDX", [""]))
     c = rnd.random()
     if c < 0.3:
-        g = rnd.choice((["E", "D"], ["K", "R"], ["P", "E", "D", "K", "R"], ["e", "d"], ["S", "T", "Y"], ["G"]))
+        g = rnd.choice((["E", "D"], ["K", "R"], ["P", "E", "D", "K", "R"], ["e", "d"], ["S", "T", "Y"], ["G"], ["E"], ["D"], ["K"], ["R"]))
     else:
         g = rnd.sample(list(AA), rnd.randrange(1, 7))
     f = rnd.random()
@@ -128,9 +129,9 @@ def gen_query(rnd, N, p_invalid):
     w = N + 2 if inv and rnd.random() < 0.4 else rnd.randrange(1, max(2, min(N, 15) + 1))
     kw = {"complexityType": t, "alphabetSize": size, "blobLen": w}
     if rnd.random() < 0.3:
-        kw["stepSize"] = rnd.randrange(1, 4)
+        kw["stepSize"] = rnd.choice((1, 2, 3, 3, 10, 12, 21))
     if rnd.random() < 0.3:
-        kw["wordSize"] = rnd.randrange(1, 5)
+        kw["wordSize"] = rnd.choice((1, 2, 3, 4, 11, 12))
     if rnd.random() < 0.2:
         kw["userAlphabet"] = gen_alphabet(rnd, inv and rnd.random() < 0.5)
         if rnd.random() < 0.5:
@@ -169,6 +170,9 @@ PATTERNS = (
     [["get_kappa_X", [["E", "D"], ["K", "D"]], {}], ["get_kappa_X", [["K", "D"], ["E", "D"]], {}], ["get_kappa_X", [["E", "D"]], {}],
      ["get_kappa_X", [["E", "D"], ["E", "D"]], {}], ["get_kappa_X", [["K", "R"], ["E", "D"]], {}], ["get_kappa_X", [["E", "D"], ["K", "R"]], {}]],
     [["get_deltaMax", [1], {}], ["get_deltaMax", [], {}], ["get_deltaMax", [1], {}], ["get_deltaMax", [True], {}], ["get_deltaMax", [1], {}]],
+    [["get_linear_complexity", [], {"blobLen": 1, "stepSize": 12}], ["get_linear_complexity", [], {"blobLen": 11, "stepSize": 2}],
+     ["get_linear_complexity", [], {"complexityType": "LC", "blobLen": 2, "stepSize": 1, "wordSize": 12}], ["get_linear_complexity", [], {"complexityType": "LC", "blobLen": 2, "stepSize": 11, "wordSize": 2}]],
+    [["get_kappa", [], {}], ["get_kappa_X", [["E"], ["K"]], {}], ["get_kappa_X", [["D"], ["R"]], {}], ["get_kappa_X", [["E", "D"], ["K", "R"]], {}]],
     [["get_isoelectric_point", [], {}], ["get_NCPR", [7.0], {}], ["get_mean_net_charge", [3.5], {}], ["get_FCR", [10.5], {}], ["get_fraction_expanding", [7.0], {}]],
     [["get_NCPR", [7.0], {}], ["get_FCR", [3.5], {}], ["get_isoelectric_point", [], {}], ["get_NCPR", [7.0], {}]],
     [["get_linear_sigma", [3], {}], ["get_linear_FCR", [3], {}], ["get_linear_NCPR", [3], {}], ["get_linear_sigma", [3], {}]],
@@ -264,6 +268,17 @@ def gen_plan(streams, tier):
                 ops.append({"o": o, "q": ["get_kappa_X", [copy.deepcopy(q[1][1]), copy.deepcopy(q[1][0])], {}]})
             elif q[0] == "get_kappa_X" and len(q[1]) == 1 and rnd.random() < 0.3:
                 ops.append({"o": o, "q": ["get_kappa_X", [copy.deepcopy(q[1][0]), copy.deepcopy(q[1][0])], {}]})
+            elif q[0] == "get_linear_complexity" and rnd.random() < 0.4:
+                # relatives whose integer arguments read the same when glued together: (1, 12) vs (11, 2), (12, 1) vs (1, 21)
+                kw = q[2]
+                b, st_, w_ = kw.get("blobLen", 10), kw.get("stepSize", 1), kw.get("wordSize", 3)
+                digits = "%d%d" % (b, st_)
+                for cut in range(1, len(digits)):
+                    b2, s2 = digits[:cut], digits[cut:]
+                    if s2[0] != "0" and (int(b2), int(s2)) != (b, st_) and 1 <= int(b2) <= max(1, N):
+                        kw2 = dict(copy.deepcopy(kw), blobLen=int(b2), stepSize=int(s2))
+                        ops.append({"o": o, "q": ["get_linear_complexity", [], kw2]})
+                        break
     p_scribble = rnd.choice((0.0, 0.0, 0.15, 0.4))
     p_post = rnd.choice((0.0, 0.3, 1.0))
     for op in ops:
@@ -272,7 +287,7 @@ def gen_plan(streams, tier):
                 op["scribble"] = True        # the caller edits the returned container in place
             if rnd.random() < p_post:
                 op["post"] = True            # look at the stored sequence and site list right after this query
-    return {"property": ID, "run_seed": streams.run_seed, "objects": objs, "ops": ops}
+    return {"property": ID, "env": envmode.choose(rnd), "run_seed": streams.run_seed, "objects": objs, "ops": ops}
 
 
 def corpus():
@@ -305,6 +320,7 @@ def execute(plan, ctx):
     import localcider.sequenceParameters as spmod
     from localcider.sequenceParameters import SequenceParameters
 
+    envmode.apply(plan.get("env"), ctx)
     def sinks():
         import localcider.sequenceParameters as spm
         spm.print = lambda *a, **k: None
